@@ -40,7 +40,7 @@ PROBES = [
     "probe.fault_in_record_read", "probe.fault_on_open", "probe.fault_on_stdin", "probe.fault_on_stdout",
     "probe.real_enoent", "probe.real_eisdir", "probe.real_eexist", "probe.real_enotdir", "probe.real_enospc",
     "probe.real_enametoolong", "probe.real_eloop", "probe.real_eio",
-    "probe.nonpcap", "probe.op_after_fault_ok", "probe.eintr_retried", "probe.second_fault", "probe.read_on_broken_source",
+    "probe.nonpcap", "probe.op_after_fault_ok", "probe.eintr_retried", "probe.second_fault", "probe.read_on_broken_source", "probe.flush_stdout_acknowledged",
 ]
 
 EINTR = 4
@@ -73,6 +73,8 @@ PKP = "d/pk.pcap"
 LONG = "d/" + "n" * 300          # ENAMETOOLONG
 LOOP = "d/loop"                  # symlink to itself: ELOOP
 PROCMEM = "/proc/self/mem"       # opens fine, every read(2) at offset 0 fails with EIO
+NOTDIR_SLASH = "d/small.txt/"    # a trailing separator after a regular file: ENOTDIR
+NOTDIR_DOT = "d/small.txt/."     # likewise
 PROCDIR = "/proc/self"           # a directory that reports size 0: opens fine, every read(2) fails with EISDIR
 PATH_IDS = {GOOD: 1, SMALL: 2, EXISTS: 3, DIR: 4, NOTDIR: 5, MISSING: 6, NODIR: 7, FULL: 8, GOODP: 9, TRUNCP: 10,
             EMPTYP: 11, SHORTP: 12, GARBP: 13, PKP: 14, PROCMEM: 15, PROCDIR: 16}
@@ -184,7 +186,7 @@ def systematic_cases():
 
     # A. real failing targets
     for mode in ("r", "w", "a", "x"):
-        for path in (MISSING, DIR, EXISTS, NOTDIR, NODIR, FULL, GOOD, fresh_path(0), LONG, LOOP, PROCMEM, PROCDIR):
+        for path in (MISSING, DIR, EXISTS, NOTDIR, NODIR, FULL, GOOD, fresh_path(0), LONG, LOOP, PROCMEM, PROCDIR, NOTDIR_SLASH, NOTDIR_DOT):
             if path == FULL and mode == "r":
                 continue
             if path in (PROCMEM, PROCDIR) and mode != "r":
@@ -199,7 +201,7 @@ def systematic_cases():
                         {"op": "write", "h": "h", "data": _wd("pkt_small")}]
             case(ops, note="real target %s mode %s" % (path, mode))
     for mode in ("r", "w", "x"):
-        for path in (MISSING, DIR, EXISTS, NOTDIR, NODIR, FULL, GOODP, TRUNCP, EMPTYP, SHORTP, GARBP, SMALL, fresh_path(0), LONG, LOOP, PROCMEM):
+        for path in (MISSING, DIR, EXISTS, NOTDIR, NODIR, FULL, GOODP, TRUNCP, EMPTYP, SHORTP, GARBP, SMALL, fresh_path(0), LONG, LOOP, PROCMEM, NOTDIR_SLASH):
             if path == FULL and mode == "r":
                 continue
             if path == PROCMEM and mode != "r":
@@ -258,6 +260,10 @@ def systematic_cases():
         case([{"op": "pcap_stream", "which": "stdin", "var": "p"}, {"op": "pcap_read_next", "h": "p"}, {"op": "pcap_read_next", "h": "p", "fault": ["R", 1, 21, en]},
               {"op": "pcap_read_next", "h": "p"}, {"op": "pcap_read_all", "h": "p", "n": None}], stdin="pcap", note="pcap stream on stdin keeps failing with errno %d" % en)
         case([{"op": "read_line", "h": "stdin", "fault": ["R", 1, 21, en]}, {"op": "read_line", "h": "stdin"}, {"op": "read", "h": "stdin", "n": 5}], note="stdin keeps failing with errno %d" % en)
+    # C1c. data pending in stdout's buffer that did not come from write(stdout, ...): flush must report the failure
+    for act in (2, 3, 1):
+        case([{"op": "pcap_stream", "which": "stdout", "var": "p"}, {"op": "flush", "h": "stdout", "fault": ["W", 1, act, 0]}], note="header pending, flush(stdout) with %s" % ACTION_NAMES[act])
+        case([{"op": "pcap_stream", "which": "stdout", "var": "p"}, {"op": "pcap_write", "h": "p", "pkt": 0}, {"op": "flush", "h": "stdout", "fault": ["W", 1, act, 0]}], note="record pending, flush(stdout) with %s" % ACTION_NAMES[act])
     # C2. less common errno values (std maps some of them to special ErrorKinds)
     for en in READ_ERRNOS:
         pre = [{"op": "open", "path": GOOD, "mode": "r", "var": "h"}]
@@ -325,14 +331,14 @@ def gen_random(rng, deep=False):
             if which == "open":
                 mode = rng.weighted([(45, "r"), (25, "w"), (15, "a"), (15, "x")])
                 if mode == "r":
-                    path = rng.weighted([(40, GOOD), (15, SMALL), (8, MISSING), (10, DIR), (8, NOTDIR), (5, NODIR), (7, GOODP), (7, EXISTS), (4, LONG), (4, LOOP), (7, PROCMEM), (5, PROCDIR)])
+                    path = rng.weighted([(40, GOOD), (15, SMALL), (8, MISSING), (10, DIR), (8, NOTDIR), (5, NODIR), (7, GOODP), (7, EXISTS), (4, LONG), (4, LOOP), (7, PROCMEM), (5, PROCDIR), (4, NOTDIR_SLASH), (3, NOTDIR_DOT)])
                     kind = "reader" if path in (GOOD, SMALL, GOODP, EXISTS) else ("dirreader" if path in (DIR, PROCMEM, PROCDIR) else "err")  # generator-side kind only
                 else:
-                    path = rng.weighted([(40, "fresh"), (12, EXISTS), (8, DIR), (8, NOTDIR), (8, NODIR), (16, FULL), (8, GOOD), (4, LONG), (4, LOOP)])
+                    path = rng.weighted([(40, "fresh"), (12, EXISTS), (8, DIR), (8, NOTDIR), (8, NODIR), (16, FULL), (8, GOOD), (4, LONG), (4, LOOP), (4, NOTDIR_SLASH), (3, NOTDIR_DOT)])
                     if path == "fresh":
                         path = fresh_path(nfresh)
                         nfresh += 1
-                    if path in (DIR, NOTDIR, NODIR, LONG, LOOP):
+                    if path in (DIR, NOTDIR, NODIR, LONG, LOOP, NOTDIR_SLASH, NOTDIR_DOT):
                         kind = "err"
                     elif mode == "x" and not path.startswith("d/out"):
                         kind = "err"
@@ -559,6 +565,9 @@ def check(model, results):
     }
     file_state = dict(files)   # path -> expected bytes (None = unknown)
     nontrivial = False
+    handed_stdout = 0       # bytes the program was told it had written to stdout (successful operations only)
+    delivered_stdout = 0    # bytes the OS accepted on descriptor 1 so far (recorded history)
+    stdout_unknown = False
     prev_fault_fired = False
     faults_fired = 0
     stopped = False
@@ -583,6 +592,7 @@ def check(model, results):
                      36: "probe.real_enametoolong", 40: "probe.real_eloop", 5: "probe.real_eio"}.get(e.errno, "real.errno%d" % e.errno))
         if errs or eintr or shorts:
             nontrivial = True
+        delivered_stdout += sum(e.res for e in evs if e.call == "W" and e.target == -3 and e.res > 0)
         ob = obs.get(k)
         if not ob:
             # the program stopped inside this operation
@@ -623,6 +633,8 @@ def check(model, results):
                 viols.append(_viol("%s:error:%s" % (o, cls), "op %d %s(%s,%s): nothing failed but the result is %s %r" % (k, o, op.get("path", op.get("which")), op.get("mode"), tag, rest[:80])))
             s = {"kind": kind if tag == "V" else "err", "ok": tag == "V", "dist": bool(errs or eintr) or exp_ok is None or (tag == "V") != exp_ok}
             s.update(extra)
+            if tag == "V" and o == "pcap_stream" and op["which"] == "stdout":
+                handed_stdout += 24
             if tag != "V" and o == "pcap_stream" and op["which"] == "stdin":
                 st["stdin"]["dist"] = True
             if tag == "V" and o == "pcap_stream" and op["which"] == "stdin":
@@ -693,6 +705,21 @@ def check(model, results):
                     k, o, h, tag, rest[:60])))
             s["dist"] = True
             continue
+        # durability of stdout: an acknowledged flush(stdout) means everything handed over before has reached the OS
+        is_stdout = (h == "stdout") or bool(s.get("stdout"))
+        if is_stdout and tag != "E":
+            if o == "write":
+                d0 = _data_bytes(op["data"], info)
+                handed_stdout += len(d0) if op["data"]["t"] in ("str", "pkt") else sum(1 if b < 128 else 2 for b in d0)
+            elif o == "pcap_write":
+                handed_stdout += len(pcapfmt.record_bytes(info["pk"][op["pkt"]]))
+            elif o == "flush" and tag == "V" and rest == "null" and not stdout_unknown:
+                inc("probe.flush_stdout_acknowledged")
+                if delivered_stdout < handed_stdout:
+                    viols.append(_viol("flush:acknowledged_but_not_delivered:stdout", "op %d flush(stdout) returned null although only %d of the %d bytes handed to stdout so far have been accepted by the OS (a failing stdout must make flush return an error object)" % (
+                        k, delivered_stdout, handed_stdout)))
+        elif is_stdout and tag == "E":
+            stdout_unknown = True   # after a failed operation the amount actually queued is unspecified
         exp = _expect_use(op, s, info)   # fault-free expectation (also advances the model)
         if target_kind == "procreader" and any(e.call == "R" and e.res >= 0 for e in evs):
             exp = ("?",)
@@ -730,6 +757,10 @@ def check(model, results):
             continue
         _compare(k, op, exp, ob, viols, cls)
 
+    # a failed open must not have touched the file behind a trailing-separator path
+    if not stopped and any(o.get("path") in (NOTDIR_SLASH, NOTDIR_DOT) for o in model["ops"]):
+        if not any(o.get("path") == SMALL and o.get("mode") in ("w", "a", "x") for o in model["ops"]) and res.files.get(SMALL) != files[SMALL]:
+            viols.append(_viol("file:touched_through_bad_path", "%s changed although every open of %s/%s must fail with ENOTDIR" % (SMALL, NOTDIR_SLASH, NOTDIR_DOT)))
     # files written through undisturbed handles must contain exactly what was reported written
     for var, s in st.items():
         if stopped:
@@ -786,7 +817,7 @@ def _expect_create(op, info, file_state, st):
     path, mode = op["path"], op["mode"]
     exists = path in file_state or path in (DIR, FULL, LOOP)
     if mode == "r":
-        if path in (MISSING, NOTDIR, NODIR, LONG, LOOP) or (path not in file_state and path not in (DIR, PROCMEM, PROCDIR)):
+        if path in (MISSING, NOTDIR, NODIR, LONG, LOOP, NOTDIR_SLASH, NOTDIR_DOT) or (path not in file_state and path not in (DIR, PROCMEM, PROCDIR)):
             return False, "err", {}
         if o == "open":
             if path in (PROCMEM, PROCDIR):
@@ -808,7 +839,7 @@ def _expect_create(op, info, file_state, st):
         ok = hdr is not None and hdr["magic"] in (pcapfmt.MAGIC_US, pcapfmt.MAGIC_NS)
         return ok, "pcapr", {"recs": [(r[0], r[1], r[2], r[3], r[2]) for r in recs], "i": 0, "srcpath": path}
     # writers
-    if path in (DIR, NOTDIR, NODIR, LONG, LOOP):
+    if path in (DIR, NOTDIR, NODIR, LONG, LOOP, NOTDIR_SLASH, NOTDIR_DOT):
         return False, "err", {}
     if mode == "x" and exists:
         return False, "err", {}
